@@ -108,7 +108,7 @@ pub fn run(ctx: &Ctx) -> Outcome {
     let mut numbers: Vec<u64> = (0..10_000).collect();
     numbers.extend(gen::group_sweep(ctx.seed));
     numbers.extend(gen::boundaries());
-    let n_random = ctx.n(60_000, 3_000_000);
+    let n_random = ctx.n(300_000, 6_000_000);
     let all_variants = !ctx.quick();
     let numbers = &numbers;
     let findings_ref = &findings;
